@@ -33,6 +33,12 @@ func RandomHistory(e *Env, r *rand.Rand, p Profile) {
 	decl := p.Declared[r.Intn(len(p.Declared))]
 	first := Step{Do: "newstore", Declared: decl, AllowLookup: p.AllowLookup[r.Intn(len(p.AllowLookup))], Expiry: pickI(r, p.Expiry),
 		Auto: p.Auto, Deadline: pickI(r, p.Deadlines)}
+	if p.Name == "init" && r.Intn(8) == 0 {
+		first.Bad = pickS(r, []string{"noclient", "nosecrets", "emptyname"})
+		if first.Bad == "nosecrets" {
+			first.Declared, first.AllowLookup = nil, false
+		}
+	}
 	ck := pickS(r, p.CacheKinds)
 	switch ck {
 	case "none", "empty", "readerr", "garbage":
